@@ -361,7 +361,20 @@ def execute(ch, cfg):
         if n.alias is None:
             # an event that fills several operand slots fails once: it is handled if any of its slots feeds an unmet condition
             group = [n] + [m for m in leaves if m.alias is n]
-            n.absorbed_elsewhere = len(group) > 1 and any(g.parent is not None and g.parent.ref is None for g in group)
+            slots = [g for g in group if g.parent is not None and g.parent.ref is None]
+            n.absorbed_elsewhere = len(group) > 1 and bool(slots)
+
+            def detached(c):
+                a = c.parent
+                while a is not None:
+                    if a.ref is not None:
+                        return True
+                    a = a.parent
+                return False
+            if n.absorbed_elsewhere and not n.ok and not n.caught and all(detached(g.parent) for g in slots):
+                # every unmet condition that could absorb the failure sits below an already decided one, which may have
+                # detached it: the failure may then be nobody's (the statement does not say) - raising is admissible
+                allowed.append((idx, now, (n.val,)))
         if n.parent is not None:
             decide(n.parent, n, idx, now)
     # ---- when -------------------------------------------------------------------------------------
